@@ -245,6 +245,22 @@ def Outcome.prepend (o : List Output) : Outcome → Outcome
   | .stopped out => .stopped (o ++ out)
   | .undefined => .undefined
 
+def Outcome.negate : Outcome → Outcome
+  | .done b out => .done (!b) out
+  | r => r
+
+/-- AND: the second operand is evaluated only if the first is true. -/
+def Outcome.andThen (first second : Outcome) : Outcome :=
+  match first with
+  | .done true out => second.prepend out
+  | r => r
+
+/-- OR: the second operand is evaluated only if the first is false. -/
+def Outcome.orElse (first second : Outcome) : Outcome :=
+  match first with
+  | .done false out => second.prepend out
+  | r => r
+
 /-- find's evaluation of an expression tree on one file. -/
 def evalFind (rt : Rt) (now : Nat) : Expr → File → Outcome
   | .test t, f => match testHolds rt now t f with
@@ -254,18 +270,10 @@ def evalFind (rt : Rt) (now : Nat) : Expr → File → Outcome
   | .action a, f => match actionOutput rt a f with
     | some o => .done true [o]
     | none => .undefined
-  | .not e, f => match evalFind rt now e f with
-    | .done b out => .done (!b) out
-    | r => r
-  | .and a b, f => match evalFind rt now a f with
-    | .done true out => (evalFind rt now b f).prepend out
-    | r => r
-  | .list a b, f => match evalFind rt now a f with
-    | .done true out => (evalFind rt now b f).prepend out
-    | r => r
-  | .or a b, f => match evalFind rt now a f with
-    | .done false out => (evalFind rt now b f).prepend out
-    | r => r
+  | .not e, f => (evalFind rt now e f).negate
+  | .and a b, f => (evalFind rt now a f).andThen (evalFind rt now b f)
+  | .list a b, f => (evalFind rt now a f).andThen (evalFind rt now b f)
+  | .or a b, f => (evalFind rt now a f).orElse (evalFind rt now b f)
   | .prec e, f => evalFind rt now e f
   | .global _, _ => .undefined
   | .positional _, _ => .undefined
